@@ -285,6 +285,17 @@ func (x *Exec) call(fr *Frame, st *State, c *ssa.CallCommon, pos token.Pos, site
 				return x.callFunction(fr, st, fn, append([]Value{*recv.Dyn}, args...), nil, pos, resT)
 			}
 		}
+		// an interface-typed package variable assigned once in init (e.g. byteOrder = binary.LittleEndian)
+		if ld, ok := c.Value.(*ssa.UnOp); ok && ld.Op == token.MUL {
+			if g, ok := ld.X.(*ssa.Global); ok {
+				if ct := x.vc.uni.finalIfaceType(g); ct != nil {
+					if fn := fr.fn.Prog.LookupMethod(ct, c.Method.Pkg(), c.Method.Name()); fn != nil {
+						x.note("interface global " + g.Name() + " resolved to its only assignment (" + ct.String() + ")")
+						return x.callFunction(fr, st, fn, append([]Value{x.zeroValue(ct)}, args...), nil, pos, resT)
+					}
+				}
+			}
+		}
 		if ic := x.vc.uni.ifaceContract(c); ic != nil {
 			return x.ifaceCall(fr, st, ic, c, recv, args, pos, resT)
 		}
